@@ -119,3 +119,61 @@ func init() {
 		}
 	})
 }
+
+func init() {
+	if os.Getenv("DBG_SIGS") == "" {
+		return
+	}
+	register("DBGSIG", func(p *Prog, r *Report) {
+		for _, pk := range []string{Mod, coqPkg, cmdGoosePkg, testGenPkg} {
+			for _, f := range p.FuncsIn(pk) {
+				if f.Parent() != nil {
+					continue
+				}
+				fmt.Printf("SIG\t%s\t%s\t%s\n", pk, FuncName(f), sigShape(f))
+			}
+		}
+	})
+}
+
+func init() {
+	if os.Getenv("DBG_IDX") == "" {
+		return
+	}
+	register("DBGIDX", func(p *Prog, r *Report) {
+		for _, pk := range []string{Mod, coqPkg} {
+			for _, f := range p.FuncsIn(pk) {
+				rm := p.Rels(f)
+				entry := p.entryRels(f)
+				p.instrs(f, func(b *ssa.BasicBlock, i int, in ssa.Instruction) {
+					switch x := in.(type) {
+					case *ssa.IndexAddr:
+						if _, isSlice := x.X.Type().Underlying().(*types.Slice); !isSlice {
+							return
+						}
+						if _, ok := constInt(x.Index); ok {
+							return
+						}
+						rs := p.RelsAt(rm, in)
+						for k := range entry {
+							rs[k] = true
+						}
+						want := sk(x.Index) + " < len(" + sk(x.X) + ")"
+						if !rs[want] {
+							fmt.Println("VARIDX", FuncName(f), p.Pos(instrPos(in)), want)
+						}
+					case *ssa.Slice:
+						if x.Low == nil && x.High == nil {
+							return
+						}
+						fmt.Println("SLICE", FuncName(f), p.Pos(instrPos(in)), sk(x))
+					case *ssa.Lookup:
+						if _, isStr := x.X.Type().Underlying().(*types.Basic); isStr {
+							fmt.Println("STRIDX", FuncName(f), p.Pos(instrPos(in)), sk(x))
+						}
+					}
+				})
+			}
+		}
+	})
+}
